@@ -8,6 +8,24 @@ ALL = ['C%02d' % i for i in range(1, 21)]
 
 # id -> (technique, level text, level note, design ref)
 CHECKS = {
+    'C04': (
+        'differential testing over Hypothesis-generated schemas and documents (all entry points x modes x 12 source kinds x CLI)',
+        'Random docgen schemas and documents (valid by construction or damaged by 1-3 typed faults whose invalidity the '
+        'generator knows) are pushed through every entry point, validation mode and source kind; the verdicts, the first '
+        'strict error (by identity of the element it is about), the error lists and the typed data must agree; CLI exit '
+        'status is checked in-process and by subprocess for error counts around multiples of 256. Refutes only; the '
+        'explored set is what the evidence counts.',
+        'trusted: docgen knows validity by construction (itself cross-checked against the library on every case: a '
+        'disagreement is reported as model_verdict); documents carry no QName-valued content',
+        'DESIGN.md section 3 C04'),
+    'C15': (
+        'exhaustive small-scope enumeration + fixed random pool against an independent position-automaton determinism oracle',
+        'Scopes S1 (1 171 050 models), S2 (183 424) and S3 (27 108) are enumerated completely in the thorough tier (seeded '
+        'slice in quick) for both XSD versions, plus a fixed pool of 24 000 larger models; the library\'s model error is '
+        'compared in both directions with weak determinism of the unrolled Glushkov automaton + EDC. The models the pinned '
+        'tree mis-judges are listed explicitly (known findings, ~27 000 per version); any other disagreement is a violation.',
+        'trusted: vf/oracles/cm.py (self-tested against Python re on every run); strict-vs-lax build equivalence is sampled',
+        'DESIGN.md section 3 C15'),
     'C16': (
         'exhaustive enumeration of constraint pairs against a set-denotation reference (differential, two observation routes)',
         'Every wildcard constraint over the pool and every ordered pair (XSD 1.0 and 1.1, attribute and element '
